@@ -34,7 +34,7 @@ def gen_lines(ctx):
             out.append(("ws-at-fold-u", "é" + "a" * (pre - 2) + ws + "b" * 80))
     # random mixes
     alphabet = ["a", "b", " ", "\t", "\r", ":", ";", "é", "ü", "€", "中", "\U0001F600", "\U00010348", "\x7f", "\x01"]
-    for _ in range(20000 if big else 1500):
+    for _ in range(20000 if big else 1500 * (1 + 4 * ctx.level)):
         n = rng.choice((0, 1, 10, 70, 74, 75, 76, 100, 149, 150, 151, 300, rng.randrange(0, 500)))
         k = rng.choice((1, 2, 4, len(alphabet)))
         sub = rng.sample(alphabet, k)
